@@ -20,7 +20,7 @@ CONE = {
     "C01": [("tok_roundtrip", 400), ("util", 150), ("digitise", 60)],
     "C02": [("vocab", 40), ("tok_roundtrip", 250), ("tok_stream", 250)],
     "C03": [("tok_stateful", 400)],
-    "C04": [("history", 350), ("to_abs", 200), ("to_rel", 200), ("rel_abs_rel", 200), ("getters", 120)],
+    "C04": [("history", 350), ("scale_down", 150), ("to_abs", 200), ("to_rel", 200), ("rel_abs_rel", 200), ("getters", 120)],
     "C05": [("quantise", 800)],
     "C06": [("qnl", 700), ("pairings", 300)],
     "C07": [("normalise", 900)],
